@@ -450,6 +450,10 @@ class ResolverMixin:  # pylint: disable=too-few-public-methods
         else:
             superclass = None
 
+        # The Association qualifier is inherited from the superclass
+        if superclass and 'Association' in superclass.qualifiers:
+            is_association_class = True
+
         # Validate association qualifier matches superclass
         if is_association_class and superclass:
             if 'Association' not in superclass.qualifiers:
